@@ -775,6 +775,118 @@ pub fn expected_tokens(p: &Program) -> Option<Vec<Value>> {
     }
 }
 
+// ------------------------------------------------------------------------------------------ triggers of open findings
+// Evaluated on the built tree (the case), never on the output.  They only CLASSIFY a violating case.
+
+/// Why the text of `e` ends with `)` although `utils::expression_ends_with_prefix(e)` is false:
+/// "naninf" (F-C02-d: a NaN / infinite number is written `(0/0)`, `(1/0)`, `(-1/0)`) or "paren" (F-C02-c: the printer
+/// wraps the last operand in parentheses).
+fn ends_with_printer_paren(e: &Expression) -> Option<&'static str> {
+    match e {
+        Expression::Number(NumberExpression::Decimal(d)) if !d.compute_value().is_finite() => Some("naninf"),
+        Expression::Binary(b) => {
+            if b.operator().right_needs_parentheses(b.right()) {
+                Some("paren")
+            } else {
+                ends_with_printer_paren(b.right())
+            }
+        }
+        Expression::Unary(u) => match u.get_expression() {
+            Expression::Binary(b) if !b.operator().precedes_unary_expression() => Some("paren"),
+            inner => ends_with_printer_paren(inner),
+        },
+        Expression::If(i) => ends_with_printer_paren(i.get_else_result()),
+        _ => None,
+    }
+}
+
+fn prefix_root_is_paren(mut p: &Prefix) -> bool {
+    loop {
+        match p {
+            Prefix::Parenthese(_) => return true,
+            Prefix::Identifier(_) => return false,
+            Prefix::Call(c) => p = c.get_prefix(),
+            Prefix::Field(f) => p = f.get_prefix(),
+            Prefix::Index(i) => p = i.get_prefix(),
+            Prefix::TypeInstantiation(t) => p = t.get_prefix(),
+        }
+    }
+}
+
+fn statement_starts_with_paren(s: &Statement) -> bool {
+    let var = |v: &Variable| match v {
+        Variable::Identifier(_) => false,
+        Variable::Field(f) => prefix_root_is_paren(f.get_prefix()),
+        Variable::Index(i) => prefix_root_is_paren(i.get_prefix()),
+    };
+    match s {
+        Statement::Assign(a) => a.get_variables().first().map(var).unwrap_or(false),
+        Statement::CompoundAssign(a) => var(a.get_variable()),
+        Statement::Call(c) => prefix_root_is_paren(c.get_prefix()),
+        _ => false,
+    }
+}
+
+fn statement_final_expression(s: &Statement) -> Option<&Expression> {
+    match s {
+        Statement::Assign(a) => a.last_value(),
+        Statement::CompoundAssign(a) => Some(a.get_value()),
+        Statement::LocalAssign(a) => a.last_value(),
+        Statement::Repeat(r) => Some(r.get_condition()),
+        _ => None,
+    }
+}
+
+/// Is the last token written for `e` (as the left operand of `..`, not wrapped in parentheses by the printer) a finite
+/// decimal number with the sign bit set?  (F-C02-b)
+fn last_token_is_negative_number(e: &Expression) -> bool {
+    match e {
+        Expression::Number(NumberExpression::Decimal(d)) => d.compute_value().is_finite() && d.compute_value().is_sign_negative(),
+        Expression::Binary(b) => !b.operator().right_needs_parentheses(b.right()) && last_token_is_negative_number(b.right()),
+        Expression::Unary(u) => match u.get_expression() {
+            Expression::Binary(b) if !b.operator().precedes_unary_expression() => false,
+            inner => last_token_is_negative_number(inner),
+        },
+        Expression::If(i) => last_token_is_negative_number(i.get_else_result()),
+        _ => false,
+    }
+}
+
+#[derive(Default)]
+struct Triggers {
+    gap_naninf: bool,
+    gap_paren: bool,
+    neg_concat: bool,
+}
+
+impl darklua_core::process::NodeProcessor for Triggers {
+    fn process_block(&mut self, block: &mut Block) {
+        let stmts: Vec<&Statement> = block.iter_statements().collect();
+        for w in stmts.windows(2) {
+            if statement_starts_with_paren(w[1]) {
+                match statement_final_expression(w[0]).and_then(ends_with_printer_paren) {
+                    Some("naninf") => self.gap_naninf = true,
+                    Some(_) => self.gap_paren = true,
+                    None => {}
+                }
+            }
+        }
+    }
+    fn process_binary_expression(&mut self, b: &mut BinaryExpression) {
+        if b.operator() == BinaryOperator::Concat && !b.operator().left_needs_parentheses(b.left()) && last_token_is_negative_number(b.left()) {
+            self.neg_concat = true;
+        }
+    }
+}
+
+fn triggers_of(block: &Block) -> Triggers {
+    use darklua_core::process::{DefaultVisitor, NodeVisitor};
+    let mut t = Triggers::default();
+    let mut copy = block.clone();
+    DefaultVisitor::visit_block(&mut copy, &mut t);
+    t
+}
+
 // ------------------------------------------------------------------------------------------ runner
 
 fn print_with(block: &Block, generator: &str, span: usize) -> Result<String, String> {
@@ -831,6 +943,7 @@ pub fn main(args: &[String]) -> i32 {
             d.emit(&json!({"id": id, "fam": fam, "block": dsl_block}));
         }
         let mut o = json!({"id": id, "fam": fam, "optree": is_optree, "tree": optree, "status": "ok", "typed": false, "neg_atom": false,
+                           "gap_naninf": false, "gap_paren": false, "neg_concat": false,
                            "tokcheck": false, "tk": [], "tv": [], "thi": [], "tlo": [], "texts": []});
         let mut b = Builder::new();
         let built = guarded(|| b.block(&dsl_block));
@@ -853,6 +966,10 @@ pub fn main(args: &[String]) -> i32 {
         normalise_numbers(&mut want);
         o["typed"] = json!(b.typed);
         o["neg_atom"] = json!(b.neg_atom);
+        let trig = triggers_of(&block);
+        o["gap_naninf"] = json!(trig.gap_naninf);
+        o["gap_paren"] = json!(trig.gap_paren);
+        o["neg_concat"] = json!(trig.neg_concat);
         if !b.typed {
             if let Some(t) = expected_tokens(&want) {
                 o["tokcheck"] = json!(true);
